@@ -161,11 +161,22 @@ struct Observed {
 }
 
 fn spawn(id: usize, arg0: &[u8], argv: &[Tok]) -> Option<Observed> {
-    let exe = std::env::current_exe().ok()?;
+    spawn_exe(&std::env::current_exe().ok()?, id, arg0, argv, false)
+}
+
+/// the harness built against bpaf with a colour feature (`./check build` / `./check C11` build them)
+fn colour_exes() -> Vec<(&'static str, std::path::PathBuf)> {
+    ["dull", "bright"].iter().map(|n| (*n, std::path::PathBuf::from(format!("{}/target/alt-{}/release/bpafmc", root(), n)))).filter(|(_, p)| p.exists()).collect()
+}
+
+fn spawn_exe(exe: &std::path::Path, id: usize, arg0: &[u8], argv: &[Tok], no_color: bool) -> Option<Observed> {
     let mut c = std::process::Command::new(exe);
     c.env_clear();
     c.env("BPAFMC_CHILD", id.to_string());
     c.env("BPAFMC_ROOT", root());
+    if no_color {
+        c.env("NO_COLOR", "1");
+    }
     c.arg0(std::ffi::OsString::from(<std::ffi::OsString as std::os::unix::ffi::OsStringExt>::from_vec(arg0.to_vec())));
     for a in argv {
         c.arg(a.os());
@@ -276,6 +287,22 @@ fn check_case(unit: &Value, id: usize, o: &Opts, level: Option<&crate::conv::Lev
             bad = Some("body-reached-iff-value");
         }
     }
+    // builds with a colour feature write the same plain text when the streams are not a terminal
+    // (they never are here) and when NO_COLOR is set
+    if bad.is_none() && argv.len() <= 1 && arg0 == b"app" && class != "completion" && !argv.iter().any(|t| t.0.starts_with(b"--bpaf-complete")) {
+        for (name, exe) in colour_exes() {
+            for no_color in [false, true] {
+                if let Some(o2) = spawn_exe(&exe, id, arg0, argv, no_color) {
+                    ctx.s.evaluations += 1;
+                    ctx.count("colour-build-children");
+                    if o2.status != Some(exp_status) || exp_out.as_ref().map_or(false, |e| e != &o2.stdout) || exp_err.as_ref().map_or(false, |e| e != &o2.stderr) {
+                        ctx.violation(viol("colour-builds-write-plain-text-to-pipes", unit, id, arg0, argv, format!("the {}-color build (NO_COLOR {}) prints what run_inner predicts in monochrome: status {}, stdout {:?}, stderr {:?}", name, if no_color { "set" } else { "unset" }, exp_status, exp_out.as_ref().map(|b| String::from_utf8_lossy(b).into_owned()), exp_err.as_ref().map(|b| String::from_utf8_lossy(b).into_owned())), show(&o2)));
+                        return;
+                    }
+                }
+            }
+        }
+    }
     match bad {
         None => {
             ctx.s.nontrivial += 1;
@@ -342,7 +369,7 @@ impl Check for C11 {
         }
     }
     fn rule(&self) -> String {
-        "corpus = definitions sampled at fixed strides from the conventional family (with/without version), general shapes, adjacent groups, the documented family, plus env-backed, max_width(40), fallback_to_usage + version, custom help names; every definition is compiled into the harness executable and run through the real OptionParser::run() in a child process (execve with the argument vector as bytes, argv[0] set explicitly, empty environment); inputs = every vector of the token tree over the definition's names, words, an empty item, a non-UTF-8 word, --name=\\xff, --help, --version and the completion marker; argv[0] in {plain, absolute path, relative path, name with space, non-UTF-8, empty, names with dots / a version suffix / an extension / a leading dot / a trailing slash / non-ASCII} for vectors of length <= 1; oracle = (1) for the conventional part of the corpus the outcome class prescribed by the reference scanner (value / stderr failure / usage on stdout for a level with fallback_to_usage that got no items); (2) in-process run_inner with the name taken from argv[0]'s file name: value -> stdout 'BODY <debug>' / status 0 / empty stderr; stdout -> text + newline on stdout / 0 / empty stderr, no BODY; stderr -> 'Error: ' + text on stderr / status 1 / empty stdout / non-empty message; completion -> text on stdout / 0; evaluation = one spawned process".into()
+        "corpus = definitions sampled at fixed strides from the conventional family (with/without version), general shapes, adjacent groups, the documented family, plus env-backed, max_width(40), fallback_to_usage + version, custom help names; every definition is compiled into the harness executable and run through the real OptionParser::run() in a child process (execve with the argument vector as bytes, argv[0] set explicitly, empty environment); inputs = every vector of the token tree over the definition's names, words, an empty item, a non-UTF-8 word, --name=\\xff, --help, --version and the completion marker; argv[0] in {plain, absolute path, relative path, name with space, non-UTF-8, empty, names with dots / a version suffix / an extension / a leading dot / a trailing slash / non-ASCII} for vectors of length <= 1; oracle = (1) for the conventional part of the corpus the outcome class prescribed by the reference scanner (value / stderr failure / usage on stdout for a level with fallback_to_usage that got no items); (2) in-process run_inner with the name taken from argv[0]'s file name: value -> stdout 'BODY <debug>' / status 0 / empty stderr; stdout -> text + newline on stdout / 0 / empty stderr, no BODY; stderr -> 'Error: ' + text on stderr / status 1 / empty stdout / non-empty message; completion -> text on stdout / 0; plus, for vectors of length <= 1, the same child built with the dull-color and the bright-color feature (streams are pipes, NO_COLOR unset and set): identical plain bytes; evaluation = one spawned process".into()
     }
     fn bounds(&self, tier: Tier) -> Value {
         json!({"corpus": corpus().len(), "vector_length": tier.pick(2, 3)})
